@@ -31,7 +31,7 @@ HELPER_EXC = "LLVM-exception"
 
 
 def generate(tier, seed):
-    n = 150 if tier == "quick" else 12000
+    n = 450 if tier == "quick" else 12000
     return [{"k": k} for k in range(n)]
 
 
